@@ -352,6 +352,7 @@ def probe_cfg(ctx, cfg, rng):
         # degenerate input, recorded in design_notes/C02.md; such paths are not counted on either side
         return [a for a in lst if a["L"] < 7000.0] if vertical_layered else lst
     o = judged(o)
+    os_ = None
     # swap
     try:
         exs, os_ = observe(make_tracer(cfg, t, f))
@@ -366,6 +367,29 @@ def probe_cfg(ctx, cfg, rng):
         # horizontal separation at the rounding level of the coordinates: a translation / rotation of the coordinates rounds it to
         # a different separation (possibly 0), i.e. to a different geometry; only the exact swap is a symmetry of such inputs
         return
+    # the same comparisons on ONE re-used tracer object: end points assigned before anything was evaluated (first pass of a loop over
+    # geometries), read, end points swapped by assignment, read again: must equal the fresh tracers exactly
+    try:
+        if os_ is None:
+            raise ValueError("swap not observed")
+        trr = make_tracer(cfg)
+        trr.from_point = np.array(f, dtype=float)
+        trr.to_point = np.array(t, dtype=float)
+        _, o_r = observe(trr)
+        trr.from_point = np.array(t, dtype=float)
+        trr.to_point = np.array(f, dtype=float)
+        _, os_r = observe(trr)
+
+        def plain(lst):
+            return [(a["L"], a["tof"], a["att"], a["em"], a["rc"]) for a in judged(lst)]
+        if json.dumps(plain(o_r)) != json.dumps(plain(o)) or json.dumps(plain(os_r)) != json.dumps(plain(os_)):
+            ctx.fail("%s:reused-tracer:%s" % (cfg["kind"], key_cfg),
+                     "%s tracer re-used for the swapped pair (end points assigned before the first read, read, swapped by assignment, read): lengths %r then %r, "
+                     "fresh tracers give %r and %r; %s" % (cfg["kind"], [x[0] for x in plain(o_r)], [x[0] for x in plain(os_r)], [x[0] for x in plain(o)],
+                                                           [x[0] for x in plain(os_)], key_cfg), {"kind": "sym", "what": "reused tracer", "cfg": cfg})
+    except (ValueError, RuntimeError):
+        if cfg["kind"] not in ("specialized", "basic") and os_ is not None:
+            raise
     # translate
     ox, oy = float(rng.choice([250.0, -1234.5, 1e4, 37.25])), float(rng.choice([-90.0, 4321.0, 0.0, 512.5]))
     f2, t2 = [f[0] + ox, f[1] + oy, f[2]], [t[0] + ox, t[1] + oy, t[2]]
